@@ -74,11 +74,25 @@ func VerifC10_HTTPSenderWire() {
 	}
 	msg := message.Message{Cid: c}
 	msg.SetAddrs(addrs)
+	unknownAt := -1
+	if verif_Bool("messageHasAnUnknownProtocolAddress") {
+		// an address with a protocol code this build does not know: skipped, never failing the message
+		unknownAt = verif_Choose("unknownAddressPosition", 0, nAddrs)
+		var with [][]byte
+		with = append(with, msg.Addrs[:unknownAt]...)
+		with = append(with, []byte{0xfa, 0x7f, 0x01})
+		with = append(with, msg.Addrs[unknownAt:]...)
+		msg.Addrs = with
+	}
 	serr := s.Send(context.Background(), msg)
 	verif_Reach("sent")
 	verif_Assert(serr == nil, "sending to indexers that answer 200/204 succeeds")
 	verif_Assert(len(rt.bodies) == nURLs, "every indexer received the announcement")
-	verif_Assert(len(msg.Addrs) == nAddrs, "the caller's message is not modified")
+	if unknownAt < 0 {
+		verif_Assert(len(msg.Addrs) == nAddrs, "the caller's message is not modified")
+	} else {
+		verif_Assert(len(msg.Addrs) == nAddrs+1, "the caller's message is not modified")
+	}
 	for _, body := range rt.bodies {
 		var got message.Message
 		derr := got.UnmarshalCBOR(bytes.NewReader(body))
@@ -90,7 +104,16 @@ func VerifC10_HTTPSenderWire() {
 		verif_Assert(bytes.Equal(got.ExtraData, extra), "the receiver decodes the configured extra data")
 		verif_Assert(got.OrigPeer == "", "a direct announcement has no original-peer field")
 		gaddrs, gerr := got.GetAddrs()
-		verif_Assert(gerr == nil && len(gaddrs) == nAddrs, "the receiver decodes as many addresses as were announced")
+		if unknownAt >= 0 && nAddrs == 0 {
+			// nothing usable was announced: the publisher's ID travels alone
+			verif_Assert(gerr == nil && len(gaddrs) == 1, "a message whose only address is unknown goes out with the publisher's ID alone")
+			if len(gaddrs) == 1 {
+				transport, id := peer.SplitAddr(gaddrs[0])
+				verif_Assert(id == pid && transport == nil, "the address on the wire is the publisher's ID")
+			}
+			continue
+		}
+		verif_Assert(gerr == nil && len(gaddrs) == nAddrs, "the receiver decodes as many addresses as were announced (unknown ones skipped)")
 		for i := range gaddrs {
 			if i >= nAddrs {
 				break
